@@ -56,6 +56,10 @@ Next ==
                             /\ e.res = "ok" => /\ Report("C14:same_labels_same_order", e.args_ok)
                                                 /\ Report("C14:same_attacks", e.atts_ok /\ e.nodup)
                                                 /\ Report("C14:one_declaration_per_line", e.lines_ok)
+       [] e.ev = "checkcmd" -> LET v == IF e.fmt = "iccma" THEN IccmaVerdict(e.lines) ELSE ApxVerdict(e.lines) IN
+                               /\ Report("C13:total", ~e.timeout /\ e.exit # 101)            \* 101 = panic of the binary
+                               /\ v[1] = "accept" => Report("C13:wellformed_accepted", e.exit = 0)
+                               /\ v[1] = "reject" => Report("C13:illformed_rejected", e.exit # 0)
        [] e.ev = "resp" -> JudgeResp(e)
        [] e.ev = "status" -> JudgeStatus(e)
        [] e.ev = "noext" -> JudgeNoExt(e)
